@@ -159,6 +159,7 @@ type env struct {
 	k     crosschainkeeper.Keeper
 	keys  map[string]*storetypes.KVStoreKey
 	ntok  int
+	round int
 }
 
 type token struct {
